@@ -6,7 +6,7 @@ CONSTANTS
   NilDictIsNull = TRUE
   WriterAddsLength = TRUE
   WriterEscapesKeys = TRUE
-  OpKinds = {"q", "cm", "w", "Tf", "Tj", "TJ", "'", "dq", "BDC", "B", "B*", "BT", "d", "sc", "unk", "img", "imgE"}
+  OpKinds = {"q", "cm", "w", "Tf", "Tj", "TJ", "'", "dq", "BDC", "B", "B*", "BT", "d", "sc", "unk", "img", "imgE", "cReg", "cSP", "cFF", "cNUL", "cCR", "cLF", "cEmpty", "cMix"}
   MaxOps = 1
   DataAlphabet = {69, 73, 32, 10, 13, 120}
   MaxData = 1
